@@ -113,7 +113,7 @@ def generate(rng, tier):
         elif r < 0.33 and not c["h"][0].startswith("L_"): c["blank"] = True; c["family"] += "/blank-line-before-ack"
     return cases
 
-class AckPort:
+class AckPort(S.PortExtras):
     """acknowledges everything: legacy commands get OK, EBB3 requests get their own name back"""
     def __init__(self, legacy, delay=0, blank=False, version=None, qe="0,0"):
         self.legacy, self.writes, self.queue = legacy, [], []
